@@ -14,7 +14,8 @@ func init() {
 		ID: "C34",
 		Explanation: "Decides the framing constants and the bounds checks around them, not round-trip under chunking: (pktline-constants) MaxSize == 65520, LenSize == 4, MaxPayloadSize == MaxSize-LenSize, the special packets are " +
 			"0000/0001/0002 and the empty packet 0004, sideband limits 1000/65520 and channels 1/2/3, and the muxer's chunk size is maxSize - LenSize - 1; (length-guards) Write emits a length only after len(p) <= MaxPayloadSize, " +
-			"Read reads the payload only after length <= len(p), ParseLength rejects 3 and values above MaxSize, the demuxer rejects packets above its maximum. Not decided: demultiplexing for arbitrary read sizes; resynchronisation.",
+			"Read reads the payload only after length <= len(p), ParseLength rejects 3 and values above MaxSize, the demuxer rejects packets above its maximum; (no-truncating-copy) a copy() into a fixed-size array in the framing packages has a constant offset and is dominated by a bound on the source's length that fits the room left " +
+			"(or the source has a static size that fits), and a copy into a caller's buffer uses the returned count. Not decided: demultiplexing for arbitrary read sizes; resynchronisation.",
 		Assumptions: []string{},
 		Run:         runC34,
 	})
@@ -76,6 +77,9 @@ func bytesLitString(info *types.Info, e ast.Expr) string {
 func runC34(c *Ctx) {
 	p := c.P
 	PackagesStateFree(c, "codec-state-free", "plumbing/format/pktline", "plumbing/protocol/packp/sideband")
+	// no-truncating-copy: see copy_bounds.go; today the only copy goes into the caller's buffer and its count is used
+	nCopy := NoTruncatingCopy(c, "no-truncating-copy", "plumbing/format/pktline", "plumbing/protocol/packp/sideband")
+	c.Check(nCopy >= 1, "no-truncating-copy", "framing:copy-sites", 0, itoa(nCopy)+" copy() sites in the framing packages examined")
 	const r1 = "pktline-constants"
 	const pl = "plumbing/format/pktline"
 	const sb = "plumbing/protocol/packp/sideband"
